@@ -164,12 +164,14 @@ def modelDiags (p : PProject) : Option (List EDiag) :=
       ms.map fun m => ds ++ self ++ m) (some [])
 
 /-- `ApiValidator.inPlaceAppendPathConflictDiagnostics`: every receiver named by a conflict gets a
-    `route-conflict` warning; the entries are (verb, the METHOD's own @Route text) of every receiver of every
-    controller — the controller prefix is not part of the entry.  Compared per receiver, not per pair. -/
+    `route-conflict` warning; the entries are (verb, controller prefix ++ method route) of every receiver of every
+    controller.  Compared per receiver, not per pair. -/
 def conflictDiags (p : PProject) : List EDiag :=
   let recs : List (String × String × String × String) := p.controllers.flatMap fun c =>
     if c.noEmbed then [] else (c.methods.filter (isRoute ·.m)).map fun pm =>
-      (c.name, pm.m.name, ((pm.m.annots.find? (·.name = "Method")).map (·.value)).getD "", ((pm.m.annots.find? (·.name = "Route")).map (·.value)).getD "")
+      (c.name, pm.m.name, ((pm.m.annots.find? (·.name = "Method")).map (·.value)).getD "",
+       -- the FULL template: the controller's prefix followed by the method's route (fix b4c8d4a; before it the prefix was left out)
+       ((c.annots.find? (·.name = "Route")).map (·.value)).getD "" ++ ((pm.m.annots.find? (·.name = "Route")).map (·.value)).getD "")
   let entries := Gleece.Paths.mkEntries (recs.map fun (_, _, v, r) => (v, r))
   let cs := Gleece.Paths.findConflicts entries
   let flagged := (cs.flatMap fun c => [c.a.id, c.b.id]).eraseDups
